@@ -47,6 +47,8 @@ class Contract:
 	assume_pure_calls: list[str] = field(default_factory=list)
 	max_paths: int = 4000
 	consts: dict[str, Any] = field(default_factory=dict)  # named constants usable in clause text
+	bounded_ensures: list[str] = field(default_factory=list)  # clauses checked only by the bounded twin (never counted as proved)
+	lets: dict[str, str] = field(default_factory=dict)  # named abbreviations over the pre-state, usable in every clause
 
 	@property
 	def key(self) -> tuple[str, str]:
@@ -104,6 +106,7 @@ class Registry:
 		self.refs: set[str] = set()
 		self.unions: dict[str, list[str]] = {}
 		self.replays: dict[str, Callable[..., Any]] = {}
+		self.consts: dict[str, Any] = {}
 		self.closed: list[Any] = []  # closed obligations decided by evaluation
 		self.bounded: list[Any] = []
 
@@ -169,6 +172,17 @@ def ref(name: str) -> None:
 
 def union(name: str, alts: list[str]) -> None:
 	REG.unions[name] = alts
+
+
+def native(fn: Callable[..., Any]) -> Callable[..., Any]:
+	"""A helper usable only in natively evaluated clauses (bounded_ensures, twins)."""
+	REG.replays[fn.__name__] = fn
+	return fn
+
+
+def const(name: str, value: Any) -> Any:
+	REG.consts[name] = value
+	return value
 
 
 def implies(a: bool, b: bool) -> bool:
